@@ -320,7 +320,19 @@ fn chain_body(c: &Chain) -> Result<(), String> {
             Err(e) => return Err(format!("the transferred receiver failed at message {}: {:?}", want, e)),
         }
     }
-    drop(tx);
+    // a message that is sent only once the final holder is already waiting for it
+    let h = std::thread::spawn(move || {
+        let r = tx.send(777_777);
+        drop(tx);
+        r.is_ok()
+    });
+    match rx.recv() {
+        Ok(777_777) => {},
+        other => return Err(format!("the final holder waited for a later message and got {:?} (the transferred receiver must still block and deliver)", other)),
+    }
+    if !h.join().map_err(|_| "late sender panicked".to_string())? {
+        return Err("late send failed".into());
+    }
     match rx.recv() {
         Err(IpcError::Disconnected) => {},
         other => return Err(format!("after the last message: {:?}", other)),
